@@ -13,6 +13,8 @@ by construction, so every check must stay silent:
   v-value    x.v -> x.value   and   x.d -> x.ndview     (documented aliases)
   not-none   `x is not None` -> `not x is None`
   tuple-in   `x in (a, b)` <-> `x in [a, b]`
+  demorgan   if A and B -> if not (not A or not B)  (and the dual), tests of if / while only
+  extract-temp  x = f(A, ..) -> _arg_tmp = A; x = f(_arg_tmp, ..)  for a call-free first argument A
 
   FALSE-ALARM     a check reports a finding that is not there on the unchanged tree
   ANALYSIS-ERROR  a check gives up (exit 2)
@@ -200,7 +202,77 @@ class TupleIn(ast.NodeTransformer):
         return c
 
 
-KINDS = {"kwargs": Kwargs, "flip-if": FlipIf, "elif": Elif, "swap-is": SwapEq, "temp-ret": TempRet, "v-value": VValue, "not-none": NotNone, "tuple-in": TupleIn}
+def _neg(e):
+    """exact logical negation of a test expression"""
+    if isinstance(e, ast.UnaryOp) and isinstance(e.op, ast.Not):
+        return e.operand
+    if isinstance(e, ast.Compare) and len(e.ops) == 1 and type(e.ops[0]) in (ast.Is, ast.IsNot, ast.In, ast.NotIn):
+        f = {ast.Is: ast.IsNot, ast.IsNot: ast.Is, ast.In: ast.NotIn, ast.NotIn: ast.In}[type(e.ops[0])]
+        return ast.Compare(left=e.left, ops=[f()], comparators=e.comparators)
+    return ast.UnaryOp(op=ast.Not(), operand=e)
+
+
+class DeMorgan(ast.NodeTransformer):
+    """if A and B: -> if not (not A or not B):     if A or B: -> if not (not A and not B):   (tests of if / while only)"""
+
+    n = 0
+
+    def _rewrite(self, t):
+        if isinstance(t, ast.BoolOp):
+            other = ast.Or() if isinstance(t.op, ast.And) else ast.And()
+            self.n += 1
+            return ast.UnaryOp(op=ast.Not(), operand=ast.BoolOp(op=other, values=[_neg(v) for v in t.values]))
+        return t
+
+    def visit_If(self, s):
+        self.generic_visit(s)
+        s.test = self._rewrite(s.test)
+        return s
+
+    def visit_While(self, s):
+        self.generic_visit(s)
+        s.test = self._rewrite(s.test)
+        return s
+
+
+class ExtractTemp(ast.NodeTransformer):
+    """x = f(A, ...)  ->  _arg_tmp = A; x = f(_arg_tmp, ...)   for the first positional argument A of a call on the
+    right-hand side of a simple assignment, when the callee expression and A are free of calls (so nothing observable is
+    reordered) and A is not a bare name / constant"""
+
+    n = 0
+
+    def _body(self, body):
+        out = []
+        for s in body:
+            s = self.generic_visit(s)
+            if isinstance(s, ast.Assign) and isinstance(s.value, ast.Call) and s.value.args and not isinstance(s.value.args[0], (ast.Name, ast.Constant, ast.Starred)):
+                a = s.value.args[0]
+                if _simple(a) and _simple(s.value.func) and not any(isinstance(x, ast.Name) and x.id == "_arg_tmp" for x in ast.walk(s)):
+                    nm = f"_arg_tmp{self.n}"
+                    out.append(ast.Assign(targets=[ast.Name(id=nm, ctx=ast.Store())], value=a, lineno=s.lineno))
+                    s.value.args[0] = ast.Name(id=nm, ctx=ast.Load())
+                    self.n += 1
+            out.append(s)
+        return out
+
+    def generic_visit(self, node):
+        if isinstance(node, (ast.FunctionDef, ast.Lambda, ast.ClassDef)) and getattr(self, "_inside", False):
+            return node
+        for fld in ("body", "orelse", "finalbody"):
+            b = getattr(node, fld, None)
+            if isinstance(b, list) and b and isinstance(b[0], ast.stmt):
+                self._inside = True
+                setattr(node, fld, self._body(b))
+        for h in getattr(node, "handlers", []) or []:
+            h.body = self._body(h.body)
+        return node
+
+    def visit(self, node):
+        return self.generic_visit(node)
+
+
+KINDS = {"demorgan": DeMorgan, "extract-temp": ExtractTemp, "kwargs": Kwargs, "flip-if": FlipIf, "elif": Elif, "swap-is": SwapEq, "temp-ret": TempRet, "v-value": VValue, "not-none": NotNone, "tuple-in": TupleIn}
 
 
 def functions(tree):
@@ -227,7 +299,7 @@ def apply_variant(src, qual, lineno, kind):
     for q, fn in functions(tree):
         if q == qual and fn.lineno == lineno:
             t = KINDS[kind]()
-            if kind in ("elif", "temp-ret"):
+            if kind in ("elif", "temp-ret", "extract-temp"):
                 t.generic_visit(fn)
             else:
                 for i, st in enumerate(fn.body):
